@@ -19,6 +19,9 @@ type RespScript struct {
 	Pieces  [][]byte // body written piece by piece
 	Flush   bool     // Flush after every piece
 	Trailer http.Header
+	// AbortAfter > 0: after that many pieces (flushed) the backend dies: the handler panics with http.ErrAbortHandler,
+	// net/http cuts the connection in the middle of the body
+	AbortAfter int
 }
 
 // RealBackend is a real net/http HTTP/1.1 server on an in-memory listener, reached through
@@ -89,9 +92,12 @@ func (b *RealBackend) serve(w http.ResponseWriter, r *http.Request) {
 		w.Header().Add("Trailer", k)
 	}
 	w.WriteHeader(rs.Status)
-	for _, p := range rs.Pieces {
+	for i, p := range rs.Pieces {
+		if rs.AbortAfter > 0 && i == rs.AbortAfter {
+			panic(http.ErrAbortHandler)
+		}
 		w.Write(p)
-		if rs.Flush {
+		if rs.Flush || rs.AbortAfter > 0 {
 			if f, ok := w.(http.Flusher); ok {
 				f.Flush()
 			}
